@@ -51,3 +51,21 @@ func VC14_StringToGUID() {
 	_ = g2.Format()
 	vsym.Reach("end")
 }
+
+// VC14_ReadKey: the PEM key decoder on every kind of PKCS#8 key the standard library can return
+// (RSA, ECDSA, Ed25519, X25519), on a PEM block that is not a key, and on text that is not PEM:
+// a key or an error, never a panic.
+func VC14_ReadKey() {
+	var in []byte
+	kind := vsym.Pick("key.kind", 6)
+	if kind == 5 {
+		in = vsym.Bytes("notpem", 8)
+	} else {
+		in = vsym.KeyPEM(kind)
+	}
+	vsym.MustTerminate()
+	k, err := ReadKey(in)
+	vsym.Assert((k != nil) == (err == nil), "the decoder returns a key or an error")
+	vsym.Assert(vsym.Implies(kind != 0, err != nil), "anything but an RSA key is refused with an error")
+	vsym.Reach("end")
+}
